@@ -20,8 +20,9 @@ RULES = {
     "R2": "every returned plate is an element of unobserved_plates",
     "R3": "thresholds: remaining < k (insufficient), selected < k (in progress); per-plate counters; arm conditions",
     "R4": "select_next_plate: policy consulted unless `policy is None`; receives batch plates and the candidate list",
+    "R5": "the winner is looked up among the allowed ids: ids[mask][scores[mask].argmin()] with mask = isin(ids, allowed)",
 }
-MIN = {"R1": 1, "R2": 1, "R3": 7, "R4": 2}
+MIN = {"R1": 1, "R2": 1, "R3": 7, "R4": 2, "R5": 2}
 TRUSTED = ["python dict/defaultdict semantics", "Plate.sample_ids[0] is the plate's sample once R1 holds"]
 TECHNIQUE = "guard dominance on the CFG, counter-idiom recognition, integer relational normal forms of the thresholds"
 LEVEL_TEXT = ("Decides the filter's one-step contract (who may be returned, under which integer thresholds) for all k and "
@@ -394,7 +395,14 @@ def _is_default_guard(st):
     return isinstance(st, ast.If) and not st.orelse and len(st.body) == 1 and isinstance(st.body[0], ast.Assign) and " is None" in U(st.test)
 
 
-RULE_FUNCS = [r1, r2, r3, r3_deviant, r4]
+def r5(ctx):
+    """the policy's verdict is enforced by the lookup that picks the winner among the allowed ids: ids and scores under one mask (C06.R4's
+    clause run here)"""
+    from rules import C06
+    ctx.borrow(C06.min_lookup, "R5")
+
+
+RULE_FUNCS = [r1, r2, r3, r3_deviant, r4, r5]
 
 
 def run(ctx):
